@@ -9,8 +9,10 @@
 void rec_mark(Janet x) { g_val_seen = g_val_seen || JEQ(x, g_val); g_val_calls++; }
 
 int32_t g_idx, g_n;
-/* arbitrary contents: uninitialised locals are nondeterministic */
-#define ARRAYS Janet g_vals[VC_WALK_N]; JanetKV g_kvs[VC_WALK_N];
+/* arbitrary contents: fresh heap objects are nondeterministic.  (NOT uninitialised local arrays: CBMC 6.11 gives the per-element
+ * symbols of a field-expanded local array and its whole-array symbol independent nondet values - a read at a symbolic index and a
+ * read at the equal constant index then disagree; probed.) */
+#define ARRAYS Janet *g_vals = malloc(sizeof(Janet) * VC_WALK_N); JanetKV *g_kvs = malloc(sizeof(JanetKV) * VC_WALK_N);
 static void setup(void) {
   g_n = nd_i32(); g_idx = nd_i32();
   __CPROVER_assume(g_n >= 0 && g_n <= VC_WALK_N && g_idx >= 0 && g_idx < VC_WALK_N);
@@ -19,7 +21,7 @@ static void setup(void) {
 #define WALK(c, msg) __CPROVER_assert(c, "C01 walker: " msg)
 
 void h_walk_many(void) {
-  ARRAYS setup(); g_val = g_vals[g_idx];
+  ARRAYS setup(); JCOPY(g_val, g_vals[g_idx]);
   janet_mark_many(g_vals, g_n);
   WALK(g_idx >= g_n || g_val_seen, "janet_mark_many marks every element values[0..n)");
   WALK(g_val_calls == (unsigned) g_n, "janet_mark_many marks exactly n values");
@@ -32,21 +34,21 @@ void h_walk_many_null(void) {
   REACH("janet_mark_many(NULL) returns");
 }
 void h_walk_keys(void) {
-  ARRAYS setup(); g_val = g_kvs[g_idx].key;
+  ARRAYS setup(); JCOPY(g_val, g_kvs[g_idx].key);
   janet_mark_keys(g_kvs, g_n);
   WALK(g_idx >= g_n || g_val_seen, "janet_mark_keys marks the key of every bucket kvs[0..n)");
   WALK(g_val_calls == (unsigned) g_n, "janet_mark_keys marks exactly n values");
   REACH("janet_mark_keys returns");
 }
 void h_walk_values(void) {
-  ARRAYS setup(); g_val = g_kvs[g_idx].value;
+  ARRAYS setup(); JCOPY(g_val, g_kvs[g_idx].value);
   janet_mark_values(g_kvs, g_n);
   WALK(g_idx >= g_n || g_val_seen, "janet_mark_values marks the value of every bucket kvs[0..n)");
   WALK(g_val_calls == (unsigned) g_n, "janet_mark_values marks exactly n values");
   REACH("janet_mark_values returns");
 }
 void h_walk_kvs(void) {
-  ARRAYS setup(); g_val = nd_int() ? g_kvs[g_idx].key : g_kvs[g_idx].value;
+  ARRAYS setup(); if (nd_int()) JCOPY(g_val, g_kvs[g_idx].key); else JCOPY(g_val, g_kvs[g_idx].value);
   janet_mark_kvs(g_kvs, g_n);
   WALK(g_idx >= g_n || g_val_seen, "janet_mark_kvs marks the key and the value of every bucket kvs[0..n)");
   WALK(g_val_calls == 2u * (unsigned) g_n, "janet_mark_kvs marks exactly 2n values");
